@@ -663,8 +663,13 @@ func (r *Ref) integer(n *node, ps []pval, off, base int, c *actx, out *[]byte) {
 	v := c.next("integer directive")
 	if v.Kind != 'i' {
 		// "If a non-integer argument is given then the Aesthetic directive is used."
-		if 0 < len(ps) || n.colon || n.at {
-			undef("non-integer argument with parameters or modifiers")
+		// With prefix parameters the result is not pinned down; the modifiers mean something to ~A only for nil
+		// (~:A) and together with a mincol (~mincol@A), so without parameters the text is the princ text.
+		if 0 < len(ps) {
+			undef("non-integer argument with parameters")
+		}
+		if (n.colon || n.at) && string(r.Princ(v)) == "nil" {
+			undef("nil argument with modifiers")
 		}
 		*out = append(*out, r.Princ(v)...)
 		return
